@@ -132,13 +132,14 @@ type Ev struct {
 	D     Val    `json:"d"`
 	G     Val    `json:"g"`
 	K     int64  `json:"kk"`
+	C     string `json:"c"` // low-cardinality string column (dictionary encoded): "u" | "v"
 	Batch int    `json:"b"`
 	Seg   int    `json:"seg"`
 }
 
 func (e Ev) doc() string {
 	var sb strings.Builder
-	fmt.Fprintf(&sb, "{\"timestamp\":%d,\"id\":%d,\"k\":%d", e.Ts, e.ID, e.K)
+	fmt.Fprintf(&sb, "{\"timestamp\":%d,\"id\":%d,\"k\":%d,\"c\":%q", e.Ts, e.ID, e.K, e.C)
 	for _, p := range []struct {
 		n string
 		v Val
@@ -172,16 +173,18 @@ type Dataset struct {
 //	bin     : bin span timestamp | stats count by timestamp
 //	perc    : stats perc50(d), perc90(d)
 type Query struct {
-	Kind   string `json:"kind"`
-	Text   string `json:"text"`
-	Field  string `json:"field,omitempty"`
-	VL     bool   `json:"vl,omitempty"`
-	TS     bool   `json:"ts,omitempty"`
-	Filter int    `json:"filter,omitempty"`
-	By     string `json:"by,omitempty"`
-	Start  uint64 `json:"start"`
-	End    uint64 `json:"end"`
-	Expect string `json:"expect,omitempty"` // known class this query is expected to hit ("" = none)
+	Kind    string `json:"kind"`
+	Text    string `json:"text"`
+	Field   string `json:"field,omitempty"`
+	VL      bool   `json:"vl,omitempty"`
+	TS      bool   `json:"ts,omitempty"`
+	Filter  int    `json:"filter,omitempty"`
+	FilterC string `json:"filter_c,omitempty"` // c = "<value>"
+	Cut     string `json:"cut,omitempty"`      // how the time range cuts through the blocks ("" = range encloses all events)
+	By      string `json:"by,omitempty"`
+	Start   uint64 `json:"start"`
+	End     uint64 `json:"end"`
+	Expect  string `json:"expect,omitempty"` // known class this query is expected to hit ("" = none)
 }
 
 // ---------- generation ----------
@@ -344,8 +347,8 @@ func genMain(r *vhlib.Rng, thorough, mixedG bool) *Dataset {
 	}
 	ts := T0 + uint64(r.Range(0, 3000))
 	for i := 0; i < n; i++ {
-		ds.Evs = append(ds.Evs, Ev{ID: i, Ts: ts, F: genF(r, fk), D: genD(r), G: genG(r, gk), K: int64(r.Range(1, 3))})
-		ts += uint64(r.Range(1, 2500))
+		ds.Evs = append(ds.Evs, Ev{ID: i, Ts: ts, F: genF(r, fk), D: genD(r), G: genG(r, gk), K: int64(r.Range(1, 3)), C: vhlib.Pick(r, []string{"u", "u", "v"})})
+		ts += uint64(r.Range(2, 2500))
 	}
 	ds.Modes = layout(r, ds.Evs)
 	// keep the main stream off the known-defect inputs (each has its own stream):
@@ -431,6 +434,7 @@ func genMain(r *vhlib.Rng, thorough, mixedG bool) *Dataset {
 	q("tcby", fmt.Sprintf("* | timechart span=%ds count by g", ds.SpanS), func(x *Query) { x.By = "g" })
 	q("bin", fmt.Sprintf("* | bin span=%ds timestamp | stats count by timestamp", ds.SpanS), nil)
 	q("perc", "* | stats perc50(d), perc90(d)", func(x *Query) { x.Field = "d" })
+	addCutQueries(r, ds)
 	if mixedG {
 		for i := range ds.Queries {
 			if ds.Queries[i].Kind == "group" || ds.Queries[i].Kind == "tcby" {
@@ -441,13 +445,100 @@ func genMain(r *vhlib.Rng, thorough, mixedG bool) *Dataset {
 	return ds
 }
 
+// ---------- time ranges that cut through blocks ----------
+// Every dataset also gets queries whose [start, end] does NOT enclose the data: both ends strictly inside
+// one block, both ends inside two different blocks, one end only, a range between two neighbouring events
+// (nothing matches), a range holding exactly one event, end exactly on an event (inclusive). Each range is
+// combined with match-all, an equality filter on the dictionary-encoded column c, and a range filter on id,
+// followed by stats (raw-record path, measures of the dense field d), stats by k / g, timechart and the
+// pipeline path.  The oracle counts exactly the events with start <= ts <= end that pass the filter.
+func addCutQueries(r *vhlib.Rng, ds *Dataset) {
+	n := len(ds.Evs)
+	ts := func(i int) uint64 { return ds.Evs[i].Ts }
+	type cut struct {
+		name       string
+		start, end uint64
+	}
+	var cuts []cut
+	add := func(name string, s, e uint64) {
+		if s <= e {
+			cuts = append(cuts, cut{name, s, e})
+		}
+	}
+	// a block with at least 3 events: both ends strictly inside it
+	for b := range ds.Modes {
+		ix := batchIdx(ds.Evs, b)
+		if len(ix) >= 3 {
+			i := ix[r.Range(1, len(ix)-2)]
+			j := ix[r.Range(1, len(ix)-2)]
+			if i > j {
+				i, j = j, i
+			}
+			add("both_ends_in_one_block", ts(i)-uint64(r.Intn(2)), ts(j)+1)
+			break
+		}
+	}
+	if n >= 4 {
+		i := r.Range(1, n/2)
+		j := r.Range(n/2, n-2)
+		add("both_ends_inside_data", ts(i), ts(j)+1)         // start on an event (inclusive), end just after one
+		add("end_on_event_inclusive", ts(i)+1, ts(j))        // the event at ts = end belongs to the range
+		add("start_cut_only", ts(r.Range(1, n-1)), ds.End)   // first events of the first touched block are out
+		add("end_cut_only", ds.Start, ts(r.Range(0, n-2))+1) // last events of the last touched block are out
+		k := r.Range(0, n-2)
+		add("between_two_events", ts(k)+1, ts(k+1)-1) // nothing inside
+		k = r.Range(1, n-2)
+		add("single_event", ts(k)-1, ts(k)+1)
+	}
+	// quick tier: 3 of the cuts per dataset (all of them in the long run over seeds / thorough)
+	for len(cuts) > 3 && !cutAll {
+		k := r.Intn(len(cuts))
+		cuts = append(cuts[:k], cuts[k+1:]...)
+	}
+	idCut := r.Range(1, n-1)
+	type flt struct {
+		text string
+		set  func(*Query)
+	}
+	filters := []flt{
+		{"*", func(q *Query) {}},
+		{`c="u"`, func(q *Query) { q.FilterC = "u" }},
+		{fmt.Sprintf("id>=%d", idCut), func(q *Query) { q.Filter = idCut }},
+	}
+	span := ds.SpanS
+	for _, c := range cuts {
+		for _, f := range filters {
+			mk := func(kind, tail string, set func(*Query)) {
+				q := Query{Kind: kind, Text: f.text + " | " + tail, Start: c.start, End: c.end, Cut: c.name}
+				f.set(&q)
+				if set != nil {
+					set(&q)
+				}
+				ds.Queries = append(ds.Queries, q)
+			}
+			mk("stats", "stats "+statsList("d", true, true), func(q *Query) { q.Field, q.VL, q.TS = "d", true, true })
+			mk("stats", "stats "+statsList("d", false, false), func(q *Query) { q.Field = "d" })
+			mk("group", "stats "+statsList("d", false, false)+" by k", func(q *Query) { q.Field, q.By = "d", "k" })
+			mk("group", "stats count, sum(d) by g", func(q *Query) { q.Field, q.By = "d", "g" })
+			if c.name != "end_on_event_inclusive" { // an event at ts = end: timechart_end_boundary_stray_bucket (own stream)
+				mk("tc", fmt.Sprintf("timechart span=%ds count, sum(d)", span), nil)
+			}
+			if f.text != "*" {
+				mk("stats", "eval zz=1 | stats "+statsList("d", true, false), func(q *Query) { q.Field, q.VL = "d", true })
+			}
+		}
+	}
+}
+
+var cutAll = false
+
 // ---------- known-defect streams ----------
 func mkEvs(r *vhlib.Rng, n int) []Ev {
 	var evs []Ev
 	ts := T0 + uint64(r.Range(0, 900))
 	for i := 0; i < n; i++ {
-		evs = append(evs, Ev{ID: i, Ts: ts, F: Val{K: "int", I: int64(r.Range(1, 30))}, D: Val{K: "int", I: int64(r.Range(1, 30))}, G: Val{K: "str", S: vhlib.Pick(r, []string{"a", "b"})}, K: int64(r.Range(1, 2))})
-		ts += uint64(r.Range(1, 2000))
+		evs = append(evs, Ev{ID: i, Ts: ts, F: Val{K: "int", I: int64(r.Range(1, 30))}, D: Val{K: "int", I: int64(r.Range(1, 30))}, G: Val{K: "str", S: vhlib.Pick(r, []string{"a", "b"})}, K: int64(r.Range(1, 2)), C: vhlib.Pick(r, []string{"u", "v"})})
+		ts += uint64(r.Range(2, 2000))
 	}
 	return evs
 }
@@ -966,6 +1057,9 @@ func matched(ds *Dataset, q Query) []Ev {
 		if q.Filter > 0 && e.ID < q.Filter {
 			continue
 		}
+		if q.FilterC != "" && e.C != q.FilterC {
+			continue
+		}
 		out = append(out, e)
 	}
 	return out
@@ -993,6 +1087,27 @@ func dcClean(evs []Ev, fld string) bool {
 		}
 	}
 	return !(hasStr && hasNum)
+}
+
+// number of rows a measure row reports
+func rowCount(row WRow) int {
+	if r, ok := obsRat(row.M["count(*)"]); ok && r.IsInt() {
+		return int(r.Num().Int64())
+	}
+	return -1
+}
+
+// events that pass the query's filter but lie outside its time range
+func outsideRange(ds *Dataset, q Query) []Ev {
+	all := q
+	all.Start, all.End = 0, math.MaxUint64
+	var out []Ev
+	for _, e := range matched(ds, all) {
+		if e.Ts < q.Start || e.Ts > q.End {
+			out = append(out, e)
+		}
+	}
+	return out
 }
 
 func bySuffix(bad map[string]string) string {
@@ -1121,6 +1236,11 @@ func (c *checker) evalStats(o WObs, evs []Ev) {
 			return
 		}
 	}
+	if got := rowCount(o.Rows[0]); got > x.Rows && got <= x.Rows+len(outsideRange(c.ds, q)) {
+		c.fail("stats_includes_events_outside_time_range", fmt.Sprintf("range [%d,%d] (%s): %d events inside the range pass the filter, the result counts %d: %s",
+			q.Start, q.End, q.Cut, x.Rows, got, bySuffix(bad)))
+		return
+	}
 	cls, det := measureClass("stats", bad)
 	c.fail(cls, det)
 }
@@ -1182,6 +1302,13 @@ func (c *checker) evalGroup(o WObs, evs []Ev) {
 				isNull = isNull || g == ""
 			}
 			if !isNull {
+				for _, e := range outsideRange(c.ds, q) {
+					if ek, _ := groupKeyOf(e, q.By); ek == k {
+						c.fail("groupby_includes_events_outside_time_range", fmt.Sprintf("range [%d,%d] (%s): result has group %q; only events outside the time range have that key (e.g. id %d at %d)",
+							q.Start, q.End, q.Cut, k, e.ID, e.Ts))
+						return
+					}
+				}
 				c.fail("group_unexpected_key", fmt.Sprintf("result has group %q, no matched event has that key", k))
 				return
 			}
@@ -1205,6 +1332,19 @@ func (c *checker) evalGroup(o WObs, evs []Ev) {
 		case "groupby_sum_skips_string_typed_numbers":
 			if onlyKeys(bad, "sum(d)", "avg(d)", "count(d)") {
 				c.fail(q.Expect, fmt.Sprintf("group %q: %s", k, bySuffix(bad)))
+				return
+			}
+		}
+		if got := rowCount(row); got > x.Rows {
+			extra := 0
+			for _, e := range outsideRange(c.ds, q) {
+				if ek, _ := groupKeyOf(e, q.By); ek == k {
+					extra++
+				}
+			}
+			if got <= x.Rows+extra {
+				c.fail("groupby_includes_events_outside_time_range", fmt.Sprintf("range [%d,%d] (%s): group %q has %d events inside the range that pass the filter, the result counts %d: %s",
+					q.Start, q.End, q.Cut, k, x.Rows, got, bySuffix(bad)))
 				return
 			}
 		}
@@ -1246,6 +1386,19 @@ func parseU(s string) (uint64, bool) {
 
 func (c *checker) evalTimechart(o WObs, evs []Ev) {
 	ds, q := c.ds, c.q
+	if q.Expect == "" {
+		total := 0
+		for _, row := range o.Rows {
+			if n := rowCount(row); n > 0 {
+				total += n
+			}
+		}
+		if total > len(evs) && total <= len(evs)+len(outsideRange(ds, q)) {
+			c.fail("timechart_includes_events_outside_time_range", fmt.Sprintf("range [%d,%d] (%s): %d events inside the range pass the filter, the buckets count %d",
+				q.Start, q.End, q.Cut, len(evs), total))
+			return
+		}
+	}
 	span := uint64(ds.SpanS) * 1000
 	type agg struct {
 		n   int
@@ -1573,7 +1726,7 @@ func coqStatsCase(ds *Dataset, q Query, o WObs) (string, bool) {
 	// which path answers the query: ingest-time .sst records only for match-all, fully enclosed, no values/list/time measures
 	// raw-record path: the time functions run for every matched record; pipeline path (after eval): only
 	// when the query has earliest/latest
-	wt := q.VL || q.TS || q.Filter > 0
+	wt := q.VL || q.TS || q.Filter > 0 || q.FilterC != "" || q.Cut != ""
 	if strings.Contains(q.Text, "eval") {
 		wt = q.TS
 	}
@@ -1759,7 +1912,8 @@ func bucketCases(r *vhlib.Rng, sum *vhlib.Summary, out string, n int) {
 func genJobs(r *vhlib.Rng, thorough bool) []*job {
 	nMain, nKnown := 26, 1
 	if thorough {
-		nMain, nKnown = 700, 12
+		nMain, nKnown = 500, 12
+		cutAll = true
 	}
 	var jobs []*job
 	for i := 0; i < nMain; i++ {
